@@ -155,6 +155,16 @@ class Exec:
                 res["err"] = r.err[-400:]
             elif who != HUMAN and not dirty:
                 w.tick(op.get("dt2", 7))
+                if op.get("crash_plan"):
+                    # the first delivery of this report dies at a journal / snapshot point (crash, or a torn write that
+                    # leaves a prefix on disk); the agent delivers it again
+                    rc = w.ckpt_ai(repo, paths, who, transcript=op.get("transcript"), model=op.get("model", "m1"),
+                                   tool=op.get("tool", "simagent"),
+                                   env=dict(env or {}, GIT_AI_VERIF_PLAN=op["crash_plan"]))
+                    self.fault("ckpt." + op["crash_plan"].split("=")[-1].split(":")[0])
+                    if rc.code not in (0, None):
+                        self.probe("ckpt_crash.fired")
+                    w.tick(5)
                 r = w.ckpt_ai(repo, paths, who, transcript=op.get("transcript"),
                               model=op.get("model", "m1"), tool=op.get("tool", "simagent"), env=env)
                 codes.append(r.code)
